@@ -344,7 +344,7 @@ pub fn run(ctx: &Ctx) -> PropResult {
         };
         let s = if ctx.quick() { 8 } else { 1 };
         wls.push(mk("format_around_era_boundary", -3 * cyc, 3 * cyc, s));
-        wls.push(mk("format_1600_2400", cal::days_from_civil(1600, 1, 1), cal::days_from_civil(2400, 12, 31), s));
+        wls.push(mk("format_1500_2500", cal::days_from_civil(1500, 1, 1), cal::days_from_civil(2500, 12, 31), s));
         wls.push(mk("format_low_range_end", cal::MIN_DAY, cal::MIN_DAY + cyc, s));
         wls.push(mk("format_high_range_end", cal::MAX_DAY - cyc, cal::MAX_DAY, s));
         wls.push(mk("format_strided_whole_range", cal::MIN_DAY, cal::MAX_DAY, if ctx.quick() { 8_191 } else { 61 }));
